@@ -48,7 +48,10 @@ package util
 //@   ensures {C04,C10,C14} r == derefT(typ) && (typ != nil ==> r != nil)
 //@ func Deref(typ) (r, ok)
 //@   ensures {C08} r == derefT(typ) && ok == isPtrT(typ) && (typ != nil ==> r != nil)
+// (C14: the recursion through pointer types terminates - library axiom T14)
 //@ func PkgOf(t) (r)
+//@   decreases ptrDepth(t)
+//@   use T13(t), T14(t), T13(ptrElem(as(t, *types.Pointer)))
 //@   ensures {C06,C01} r == pkgOfType(t)
 //@ func SliceElement(t) (r)
 //@   ensures {C16} r == elemT(t) && (isSliceT(t) ==> r != nil)
@@ -175,6 +178,8 @@ package util
 //@     cond(is(t, *types.Slice), "[]" + typeExpr(i, sliceElemType(as(t, *types.Slice))), otherTypeExpr(i, t)))))
 //@
 //@ func (ImportNames).TypeName(i, t) (r)
+//@   decreases ptrDepth(t)
+//@   use T13(t), T14(t), T13(ptrElem(as(t, *types.Pointer)))
 //@   requires t != nil
 //@   ensures {C08,C01,C16} r == typeExpr(i, t)
 //@ func (ImportNames).IsExternal(i, t) (r)
